@@ -471,7 +471,7 @@ pub async fn run_case(r: &mut Report, s: &Arc<Sched>, case: &TaskCase, store: &S
     let mut logv: Vec<Value> = Vec::new();
     let t2 = Instant::now();
     loop {
-        let bytes = store.log_bytes();
+        let bytes = store.log_bytes_settled();
         match truth::parse_log(&bytes) {
             Ok(frames) => {
                 if let Err(e) = truth::check_streams(&frames) {
